@@ -495,3 +495,5 @@ func c18one(r *rng.R, name string) error {
 	}
 	return nil
 }
+
+func nil2(ua.Response) error { return nil }
